@@ -131,3 +131,55 @@ def k7(ctx):
         same_block_before = any(h["bb"] == e["bb"] and h["seq"] < e["seq"] for h in hw)
         ok = same_block_before or (e["bb"] not in reach) or (e["bb"] in stop and any(h["bb"] == e["bb"] and h["seq"] < e["seq"] for h in hw))
         yield Ob(key_of("C06-K7", b.path, "header-reset-before-wipe"), ok, "every path (self.unify) to the zeroing of the data area passes the header write first", ctx.loc(e))
+
+
+@rule("C06-K8", "C06", 1, "creating a file: the identification block (what makes a later open accept the file) is written after the header is complete - a kill between the "
+      "two must leave a file that is refused, not one that validates with cursor 0 (every allocation would then start at offset 0, over the identification block and the header)",
+      configs=MEMCFG)
+def k8(ctx):
+    b = ctx.facts.one(r"^memory::Memory::<R, PR, H>::map_mut_in::\{closure#0\}$")
+    ev, res = ctx.eval(b, no_inline=(r"::mlock$",))
+    CN = ("upvar", "create_new")
+    hdr = [e for e in res.log if e["kind"] == "call" and e.get("effect") == "ptr_write" and ("bool", CN, True) in ctx.facts_of(ev, e)]
+    ident = [e for e in res.log if (e["kind"] == "call" and e.get("effect") == "copy_from_slice") or (e["kind"] == "store" and e["path"] and isinstance(e["path"][-1], tuple) and e["path"][-1][0] == "idx")]
+    ident = [e for e in ident if e["body"].name == "write_sanity"]
+    ok = len(hdr) == 1 and len(ident) >= 3 and all(hdr[0]["seq"] < e["seq"] for e in ident)
+    yield Ob(key_of("C06-K8", b.path, "header-before-identification"), ok,
+             "create path: header write (%s) %s the %d identification-block writes" % (ctx.loc(hdr[0]) if hdr else "none", "precedes" if ok else "does NOT precede", len(ident)), ctx.loc(hdr[0]) if hdr else b.loc())
+
+
+@rule("C06-K9", "C06", 2, "opening an existing file: the stored cursor is validated against [data_offset, mapped capacity] before the arena is built - a file with cursor 0 "
+      "(killed during creation), or one opened with a capacity smaller than what was allocated, must be refused: otherwise allocations start inside the header, or "
+      "allocated_memory() / the readers reach beyond the mapping", configs=MEMCFG, also=("C09", "C05", "C15"))
+def k9(ctx):
+    for name in ("map_mut_in", "map_in"):
+        b = ctx.facts.one(r"^memory::Memory::<R, PR, H>::%s::\{closure#0\}$" % name)
+        ev, res = ctx.eval(b, no_inline=(r"::mlock$", r"^sanity_check$"))
+        aggs = [e for e in res.log if e["kind"] == "agg" and e["adt"] == "memory::Memory" and not e["chain"]]
+        la = [c["result"] for c in res.log if c["kind"] == "call" and c["callee"].endswith("load_allocated")]
+        ok_lo = ok_hi = False
+        if len(aggs) == 1 and la:
+            do = canon(struct_get(aggs[0]["value"], "data_offset"))
+            cap = canon(struct_get(aggs[0]["value"], "cap"))
+            a = canon(la[0])
+            CN = ("upvar", "create_new")
+            fsets = []
+            if name == "map_in":
+                fsets.append(set(canon(f) for f in ctx.facts_of(ev, aggs[0])))
+            else:
+                # the aggregate is built after the create / reopen branches have joined: judge the edges that leave the reopen branch
+                for x in b.reachable:
+                    fx_ = set(implied_facts(ev.guards(res, x)))
+                    if ("bool", CN, False) not in fx_:
+                        continue
+                    for y in b.succ[x]:
+                        fy = set(implied_facts(ev.guards(res, y)))
+                        if ("bool", CN, False) not in fy and ("bool", CN, True) not in fy and aggs[0]["bb"] in (b.reach(y) | {y}):
+                            # the last such edge only: nothing between y and the aggregate is inside a reopen-only region again
+                            later = [z for z in (b.reach(y) | {y}) if aggs[0]["bb"] in (b.reach(z) | {z}) and ("bool", CN, False) in set(implied_facts(ev.guards(res, z)))]
+                            if not later:
+                                fsets.append(set(canon(f) for f in implied_facts(ev.guards_edge(res, x, y))))
+            ok_lo = bool(fsets) and all(Order(fs).le(do, a) for fs in fsets)
+            ok_hi = bool(fsets) and all(Order(fs).le(a, cap) for fs in fsets)
+        yield Ob(key_of("C06-K9", b.path, "cursor-at-least-data-offset"), ok_lo, "%s: Memory is built only under data_offset <= stored cursor" % name, b.loc())
+        yield Ob(key_of("C06-K9", b.path, "cursor-within-mapping"), ok_hi, "%s: Memory is built only under stored cursor <= mapped capacity" % name, b.loc())
